@@ -99,6 +99,28 @@ def run(tier):
                 elif len(cov.bounds) != c["npar"]:
                     ck.violation("one bound per hyper-parameter", {**ident, "n_bounds": len(cov.bounds), "npar": c["npar"]},
                                  site=f"{cname}.estimate_hyperpar_bounds")
+                # a composite built in steps from an existing composite: A = k1 + .. + k(m-1), then B = A + km and C = km' + A.  B is the
+                # full sum; A is still the sum of ITS components afterwards (value, labels, parameter count)
+                if kd["k"] == "sum" and len(kd["parts"]) >= 2:
+                    parts = [G.build_kernel(p_, d, n) for p_ in kd["parts"]]
+                    A_ = parts[0][0]
+                    for p_ in parts[1:-1]:
+                        A_ = A_ + p_[0]
+                    thA = np.array([t for p_ in parts[:-1] for t in p_[1]], dtype=float)
+                    A_.pass_spatial_data(X)
+                    before = (A_.n_params, list(A_.hyperpar_labels), np.asarray(A_(X, X, thA), dtype=float).copy())
+                    B_ = A_ + parts[-1][0]
+                    C_ = G.build_kernel(kd["parts"][-1], d, n)[0] + A_
+                    B_.pass_spatial_data(X)
+                    C_.pass_spatial_data(X)
+                    after = (A_.n_params, list(A_.hyperpar_labels), np.asarray(A_(X, X, thA), dtype=float))
+                    okA = before[0] == after[0] == len(thA) and before[1] == after[1] and np.array_equal(before[2], after[2])
+                    okB = B_.n_params == c["npar"] and close(np.asarray(B_(X, X, theta), dtype=float), want_call, sc_ := float(np.max(np.abs(want_call))))
+                    okC = C_.n_params == c["npar"]
+                    if not (okA and okB and okC):
+                        ck.violation("a composite's value, labels and parameter count are those of its components (also after it was used to build another composite)",
+                                     {**ident, "A_n_params_before_after": [before[0], after[0]], "A_labels_after": after[1], "B_n_params": B_.n_params,
+                                      "C_n_params": C_.n_params, "spec_n_params": c["npar"]}, site="CompositeCovariance.__add__")
                 if len(ck.samples) < 3 and kd["k"] == "sum" and any(p["k"] == "cp" for p in kd["parts"]):
                     ck.sample({**ident, "theta": theta.tolist(), "spec_build": want_build.tolist(), "n_gradients": c["npar"]})
             except Exception as ex:
